@@ -1,7 +1,7 @@
 (* C10 -- the overlay shows the overlayfs union of its layers and never modifies lowers.
    Only statements, closed by [exact]; proofs live in Proofs/Overlay*.v. *)
 From Coq Require Import List String NArith Bool.
-From FB Require Import Model.Overlay Proofs.OverlayInv Proofs.OverlayScan Proofs.OverlayRestart Proofs.OverlayReadOnly Proofs.OverlayCoh Proofs.OverlayCohView Proofs.OverlayCohOps.
+From FB Require Import Model.Overlay Proofs.OverlayInv Proofs.OverlayScan Proofs.OverlayRestart Proofs.OverlayReadOnly Proofs.OverlayCoh Proofs.OverlayCohView Proofs.OverlayCohOps Proofs.OverlayCohSteps.
 Import ListNotations.
 Local Open Scope string_scope.
 Local Open Scope N_scope.
@@ -46,18 +46,19 @@ Proof. exact readonly_run. Qed.
 Theorem C10_coherent_fresh : forall u ls nx, Forall layer_ok (u :: ls) -> Coherent (fresh (Some u) ls nx).
 Proof. exact fresh_coherent. Qed.
 (* (b) it is preserved by every operation of the proved list [coh_op]:
-       lookup, getattr, readdir, read, readlink, open(O_RDONLY), getxattr, listxattr, MKDIR
-   (mkdir includes: copy-up of the whole chain of parent directories, of a parent that is a file or a
-   symlink, removal of an upper whiteout, the opaque marker of the repaired do_mkdir), by the tree walk
-   of a dump, and hence by every history over those operations.  NOT yet in the list: create, mknod,
-   symlink, link, unlink, rmdir, open for writing, write, chmod, truncate, setxattr, removexattr. *)
+       lookup, getattr, readdir, read, readlink, open(O_RDONLY), getxattr, listxattr,
+       MKDIR, CREATE, MKNOD, SYMLINK, UNLINK
+   (these include: copy-up of the whole chain of parent directories, of a parent that is a file or a
+   symlink, removal of an upper whiteout, the opaque marker of the repaired do_mkdir, the whiteout decision of the repaired do_rm with
+   lower_has_child), by the tree walk of a dump, and hence by every history over those operations.
+   NOT yet in the list: link, rmdir, open for writing, write, chmod, truncate, setxattr, removexattr. *)
 Theorem C10_coherent_step : forall o s, coh_op o = true -> Coherent s -> Coherent (run_op o s).
 Proof. exact coherent_step. Qed.
 Theorem C10_coherent_history : forall ops, coh_history ops = true -> forall s, Coherent s -> Coherent (run_dumps ops s).
 Proof. exact coherent_history. Qed.
 Example C10_coh_op_list :
   coh_op (OMkdir ["a"; "b"] 493) = true /\ coh_op (OLookup ["a"]) = true /\ coh_op (OReaddir []) = true /\
-  coh_op (OCreate ["a"] 420) = false /\ coh_op (OUnlink ["a"]) = false /\ coh_op (OWrite ["a"] 0 []) = false.
+  coh_op (OCreate ["a"] 420) = true /\ coh_op (OSymlink ["a"] []) = true /\ coh_op (OUnlink ["a"]) = true /\ coh_op (ORmdir ["a"]) = false /\ coh_op (OWrite ["a"] 0 []) = false.
 Proof. repeat split. Qed.
 
 (* Invariant of the node cache: a backing inode flagged in_upper_layer lives in layer 0 and only
